@@ -1,7 +1,7 @@
 (* OCaml side of the C06 correspondence.  Glue only: parses the export written by harness/c06_driver.cpp into the Coq
    records, calls the extracted flatten_model, prints canonical dumps.  No property logic.
 
-   argv[1] = case file, one case per line:
+   argv[1] = case file, argv[2] (optional) = fuel (default 400), argv[3] (optional) = rounds (default 40); one case per line:
         <fixes: 7 x 0/1 = kids late clash cndeep ref chain ids | "cur"> <export>
      export := nlibs model{1 + nlibs} n0        (first model = the model given to flattenModel, then the library)
      model  := "M" name nunits units* ncomps comp* neqs eqv*
@@ -155,8 +155,8 @@ let () =
           let libs = List.init nlibs (fun k -> parse_model (OLib (nat_of_int k)) t) in
           let n0 = next_int t in
           let echo = String.concat "@@" (List.map dump_model (origin :: libs)) in
-          let fuel = nat_of_int 400 in
-          let rounds = nat_of_int 40 in
+          let fuel = nat_of_int (if Array.length Sys.argv > 2 then int_of_string Sys.argv.(2) else 400) in
+          let rounds = nat_of_int (if Array.length Sys.argv > 3 then int_of_string Sys.argv.(3) else 40) in
           let res = match flatten_model rounds fuel fx libs origin (nat_of_int n0) with
             | FOk (m, st) -> "D=" ^ dump_model m ^ "\tW=" ^ (if wlog_ok st.wlog then "1" else "0")
             | FCrash -> "D=FCRASH"
